@@ -14,6 +14,7 @@ Inductive case :=
 | Single (s : text) (o : outcome) (stable agree : bool)
     (* o: what compile_str did; stable: same answer again, after use, after a cache drop;
        agree: parse and compile_str accept/reject alike and compile_expr (parse s) = compile_str s *)
+| Hook (s : text) (registered : bool) (fired : list Z)   (* end to end on the probe objects: which changes fired *)
 | ExprC (e : expr) (o : outcome)                    (* an expression built through the API, compile_expr *)
 | Pair (same : bool) (s1 s2 : text) (o1 o2 : outcome) (pyeq hasheq removal : bool).
     (* removal: a handler registered on a probe object by text s1 could be removed by text s2 *)
@@ -30,6 +31,7 @@ Definition outcome_eqb (m i : outcome) : bool :=
 Definition corr_codes (c : case) : list Z :=
   match c with
   | Single s o _ _ => chk 1 (outcome_eqb (compile_str (chars s)) o)
+  | Hook _ _ _ => []
   | ExprC e o => chk 1 (outcome_eqb (match create_graphs e [] with Some gs => Graphs gs | None => CompileError end) o)
   | Pair _ s1 s2 o1 o2 _ _ _ =>
       chk 1 (outcome_eqb (compile_str (chars s1)) o1) ++ chk 2 (outcome_eqb (compile_str (chars s2)) o2)
@@ -38,6 +40,7 @@ Definition corr_codes (c : case) : list Z :=
 Definition law_codes (c : case) : list Z :=
   match c with
   | Single s o stable agree => law_single (chars s) o ++ chk 13 stable ++ chk 14 agree
+  | Hook s r f => law_hook (chars s) r f
   | ExprC e o => law_expr e o
   | Pair same s1 s2 o1 o2 pyeq hasheq removal =>
       law_single (chars s1) o1 ++ map (fun c => 20 + c) (law_single (chars s2) o2) ++ law_pair same o1 o2 pyeq hasheq
@@ -55,7 +58,7 @@ Definition fuel_codes (c : case) : list Z :=
                                    | None, None => true
                                    | _, _ => false end)
                end in
-  match c with Single s _ _ _ => one s | ExprC _ _ => [] | Pair _ s1 s2 _ _ _ _ _ => one s1 ++ one s2 end.
+  match c with Single s _ _ _ => one s | ExprC _ _ => [] | Hook _ _ _ => [] | Pair _ s1 s2 _ _ _ _ _ => one s1 ++ one s2 end.
 
 (* ------------------------------------------------------------------ exhaustive grids *)
 (* 13 symbols: a b items + * . : , [ ] space e-acute (a non-ASCII word character) and the digit 1 *)
